@@ -348,11 +348,22 @@ def r5_whole(prog, rep):
                   function=f.name, construct="whole")
     for c in f.calls("generate"):
         st = A.state_before(c)
-        amt = A.lin(c.arg(1), st) if st is not None else None
+        # the amount as the callee receives it: a conversion to the parameter's type keeps the value only when the value fits
+        arg, fits = c.arg(1), True
+        while st is not None and arg is not None and arg.cls in ("ImplicitCastExpr", "CStyleCastExpr", "ParenExpr") and arg.kid(0) is not None and A.lin(arg, st) is None:
+            t = u.types.get(arg.ty) or {}
+            inner = A.lin(arg.kid(0), st)
+            if arg.cls != "ParenExpr" and t.get("kind") in ("int", "enum", "bool") and t.get("size") and inner is not None:
+                bits = 8 * t["size"]
+                lo, hi = (-(2 ** (bits - 1)), 2 ** (bits - 1) - 1) if t.get("signed") else (0, 2 ** bits - 1)
+                fits = fits and A.holds(st, ">=", inner, Lin.const(lo)) and A.holds(st, "<=", inner, Lin.const(hi))
+            arg = arg.kid(0)
+        amt = A.lin(arg, st) if st is not None and fits else None
         n += 1
         ok = amt is not None and A.holds(st, ">=", amt, Lin.const(1)) and A.holds(st, "<=", amt, Lin.var(LEN)) and A.holds(st, "<=", amt, Lin.const(65536))
         rep.check(ok and norm(c.arg(0)) == BUF, "R5-whole", "each generate step writes at the cursor between 1 and 65536 bytes, no more than remain", c.where,
-                  "amount %s" % (amt,), function=f.name, construct="step-amount")
+                  ("amount %s" % (amt,)) if fits else "the amount does not fit the type it is converted to for the call (%s): generate receives a different number" % c.arg(1).ty,
+                  function=f.name, construct="step-amount")
         a = norm(c.arg(1))
         adv = [(show(norm(e.kid(0))), e.op) for e in f.all_elems() if e.is_assign and e.op in ("+=", "-=") and norm(e.kid(1)) == a and f.dominates(c, e)]
         n += 1
@@ -369,9 +380,9 @@ def run(tier):
         "HMAC-SHA256 itself (C01) and bit-equality of outputs. Frozen exception: the RDRAND top-up after (re)seeding is extra input "
         "whose failure is deliberately ignored by the code's own comment.",
         trusted=["HMAC_SHA256_* (C01)", "read(2) on /dev/urandom"])
-    configs = [cdb.HOST]
-    if tier == "thorough":
-        configs.append(cdb.Config("nofeat", features=[]))
+    # both tiers: the build with the host's CPU features and the one without any (the RDRAND top-up is compiled out there, and a
+    # statement moved inside its #ifdef disappears with it)
+    configs = [cdb.HOST, cdb.Config("nofeat", features=[])]
     for cfg in configs:
         prog = ir.Program([UNIT, "util/entropy.c"], cfg)
         rep.add_stats(prog)
